@@ -48,6 +48,17 @@ def _check_pairs(ctx, bm, atoms):
             ctx.claim('criterion-symmetric', expected == expected_rev)
             ctx.claim('bond-iff-pair-criterion', bonded == expected,
                       detail='bonded=%s criterion=%s' % (bonded, expected))
+            # the criterion itself, written out independently of check_distance: squared distance below the squared
+            # cut-off of the element pair (constants of propka.bonds: X-H 1.5, S-S 2.5, otherwise 2.0; H-H never)
+            import propka.bonds as PB
+            nh = (a.element == 'H') + (b.element == 'H')
+            d2 = (a.x - b.x) * (a.x - b.x) + (a.y - b.y) * (a.y - b.y) + (a.z - b.z) * (a.z - b.z)
+            if nh == 2:
+                spec = False
+            else:
+                cut = PB.HYDROGEN_DISTANCE if nh == 1 else (PB.DISULFIDE_DISTANCE if (a.element == 'S' and b.element == 'S') else PB.DEFAULT_DISTANCE)
+                spec = lt(d2, cut * cut)
+            ctx.claim('bond-iff-distance-below-cutoff', spec if bonded else Not(spec), detail='%s-%s bonded=%s' % (a.element, b.element, bonded))
             if a.element == 'S' and b.element == 'S':
                 ctx.claim('disulfide-both-flagged', (a.cysteine_bridge == bonded) and (b.cysteine_bridge == bonded))
             else:
